@@ -333,6 +333,12 @@ class DefaultOperatorResolver(OperatorResolver):
         def nested_product_expansion(
             parents: OrderedSet[Term], nested: OrderedSet[Term]
         ) -> OrderedSet[Term]:
+            if not parents:
+                raise FormulaParsingError(
+                    "Cannot nest terms under an empty set of terms: the left-hand "
+                    "operand of `/` (or the right-hand operand of `%in%`) must "
+                    "contain at least one term."
+                )
             common = functools.reduce(lambda x, y: x * y, parents)
             return cast(
                 OrderedSet, parents | OrderedSet(common * term for term in nested)
